@@ -66,8 +66,16 @@ fn main() {
                 iters: Mutex::new(HashMap::new()),
                 signals: (Mutex::new(Default::default()), std::sync::Condvar::new()),
                 shared_subs: shared_subs.clone(),
+                peers: Mutex::new(HashMap::new()),
             });
             stores.insert(k.clone(), sh);
+        }
+        for k in &names {
+            for k2 in &names {
+                if k != k2 {
+                    stores[k].peers.lock().unwrap().insert(k2.clone(), stores[k2].clone());
+                }
+            }
         }
         let progs: HashMap<String, Vec<OpDesc>> = serde_json::from_value(r["prog"].clone()).expect("prog");
         let mut handles = Vec::new();
@@ -108,6 +116,9 @@ fn main() {
                     std::thread::sleep(Duration::from_micros(200));
                 }
             }
+        }
+        for k in &names {
+            stores[k].peers.lock().unwrap().clear(); // break the reference cycle between the stores
         }
         s.unregister();
         let log = s.take_log();
